@@ -174,8 +174,8 @@ func checkCase(c Case) fw.Outcome {
 	kept, removed, keptWithKids := countNodes(plain.MS, f.ref)
 	out.NonTrivial = removed >= 1 && keptWithKids >= 1
 	_ = kept
-	opts := canon.Opts{}
-	want := canon.Dump(plain.MS, canon.Opts{Prune: f.ref})
+	opts := canon.Opts{XPathListing: true}
+	want := canon.Dump(plain.MS, canon.Opts{Prune: f.ref, XPathListing: true})
 	got := canon.Dump(filtered.MS, opts)
 	if got != want {
 		out.Violation = fmt.Sprintf("filter %s: compiled-with-filter differs from pruned unfiltered schema\n%s\nmodules:\n%s", f.name, firstDiff(want, got), src)
